@@ -87,18 +87,20 @@ fn is_mixed(c: &str) -> bool {
 }
 
 fn nonws_clusters(s: &str, g: bool) -> Vec<String> {
-    CharString::split(s, g)
+    vh::split_clusters(s, g)
         .filter(|c| !c.chars().all(|c| c.is_whitespace()))
         .map(|c| c.to_string())
         .collect()
 }
 
-fn word(rng: &mut Rng, g: bool, seam: bool) -> String {
+fn word(rng: &mut Rng, _g: bool, seam: bool, ascii_only: bool) -> String {
     let n = rng.range(1, 4);
     let mut w = String::new();
     for _ in 0..n {
         let k = rng.below(12);
-        let u = if seam && k < 5 {
+        let u = if ascii_only {
+            *rng.pick(units::ASCII)
+        } else if seam && k < 5 {
             *rng.pick(units::SEAM)
         } else if k < 7 {
             *rng.pick(units::ASCII)
@@ -167,7 +169,11 @@ impl Prop for C14 {
         let text = if stream < 75 {
             // clean text: words separated by single spaces
             let nw = if rng.chance(1, 8) { rng.below(2) } else { rng.range(2, 6) };
-            (0..nw).map(|_| word(rng, g, seam)).collect::<Vec<_>>().join(" ")
+            {
+                // one text in five is pure ASCII (the shape on which an `is_ascii()` shortcut would be taken)
+                let ascii_only = !seam && rng.chance(1, 5);
+                (0..nw).map(|_| word(rng, g, seam, ascii_only)).collect::<Vec<_>>().join(" ")
+            }
         } else if stream < 85 {
             // cleaned arbitrary text
             let n = rng.below(10);
@@ -315,11 +321,11 @@ impl Prop for C14 {
                 // non-whitespace clusters plus whitespace clusters
                 if g
                     && (nonws_clusters(c, g) != nonws_clusters(&text, g)
-                        || CharString::split(c, g).any(is_mixed))
+                        || vh::split_clusters(c, g).any(is_mixed))
                 {
                     tags.push("class:KF1".into());
                 }
-                let is_clean = clean(&text, g) == text && !CharString::split(&text, g).any(is_mixed);
+                let is_clean = clean(&text, g) == text && !vh::split_clusters(&text, g).any(is_mixed);
                 if is_clean {
                     tags.push("clean".into());
                 }
